@@ -20,6 +20,7 @@ SIM_PROGRAMS = [
 ("guard_refalse", "g = 1\nk = 0\nwhile g == 1:\n    g = Bernoulli(1/2)\n    k = k + 1\nend", 4),
 ("du_cmp", "d = 0\ns = 0\nwhile true:\n    d = DiscreteUniform(1, 3)\n    if d >= 2:\n        s = s + d\n    end\n    if d == 2:\n        s = s - 1\n    end\nend", 3),
 ("nested_else", "a = 0\nb = 0\nt = 0\nwhile true:\n    a = Bernoulli(1/2)\n    b = Bernoulli(1/4)\n    if a == 1:\n        if b == 1:\n            t = t + 5\n        else:\n            t = t + 1\n        end\n    else:\n        t = t - 1\n    end\nend", 3),
+("choice_coinciding_values", "x = 1\ny = 0\nwhile true:\n    x = x + 1 {1/2} 2*x {1/4} 3\n    if x == 3:\n        y = y + 1 {1/2} y\n    end\nend", 3),      # branches of a choice that evaluate to the same number in a reachable state
 ("or_and", "p = 0\nq = 0\nz = 0\nwhile true:\n    p = Bernoulli(1/2)\n    q = Bernoulli(1/2)\n    if p == 1 || q == 1:\n        z = z + 1\n    end\n    if !(p == 1 && q == 1):\n        z = z + 10\n    end\nend", 2),
 ]
 SAMPLERS = [('Normal', ['2', '9']), ('Normal', ['-1', '1/4']), ('Uniform', ['1', '4']), ('Uniform', ['-2', '-1']), ('Laplace', ['1', '3']), ('DistExp', ['4']), ('DistExp', ['1/2']),
